@@ -177,21 +177,19 @@ macro_rules! layer_harness {
 }
 fn boxed(l: RL) -> DynSub { Box::new(l) }
 fn reloadable<T>(l: T) -> reload::Subscriber<T> { reload::Subscriber::new(l).0 }
-/// the one-element Vec forwards neither `event_enabled` nor `on_id_change` (findings): excluded here
-fn vec_excluded(op: u8) {
-    kani::assume(op != OP_EVENT_ENABLED);
-    kani::assume(op != OP_CLONE || ld64(&ROOT_A.ans_clone_id) == 0);
-}
+/// (historical) the one-element Vec used to forward neither `event_enabled` nor `on_id_change` (fixed in /repo by
+/// bc81c18; the finding harnesses `c09_vec1_event_enabled` / `c09_vec1_on_id_change` stay): nothing is excluded now
+fn vec_excluded(_op: u8) {}
 
 layer_harness!(c09_box_sized_subscribe, 2, |op, a| { layer_wrapper(Box::new(RL(&B1)), op, &a, N_KINDS) });
 layer_harness!(c09_box_dyn_subscribe, 2, |op, a| { layer_wrapper(boxed(RL(&B1)), op, &a, N_KINDS) });
 layer_harness!(c09_option_some_subscribe, 2, |op, a| { layer_wrapper(Some(RL(&B1)), op, &a, N_KINDS) });
 layer_harness!(c09_vec1_subscribe, 3, |op, a| {
     vec_excluded(op);
-    layer_wrapper_x(vec![RL(&B1)], op, &a, N_KINDS, X_EVENT_ENABLED | X_ID_CHANGE)
+    layer_wrapper_x(vec![RL(&B1)], op, &a, N_KINDS, X_NONE)
 });
-// reload::Subscriber does not forward `on_subscribe` (finding): that counter is excluded here
-layer_harness!(c09_reload_subscribe, 2, |op, a| { layer_wrapper(reloadable(RL(&B1)), op, &a, K_ON_SUBSCRIBE) });
+// reload::Subscriber forwards `on_subscribe` since 14a6af5 (finding harness `c09_reload_on_subscribe` stays)
+layer_harness!(c09_reload_subscribe, 2, |op, a| { layer_wrapper(reloadable(RL(&B1)), op, &a, N_KINDS) });
 layer_harness!(c09_identity_outer, 2, |op, a| {
     layer_wrapper(Subscribe::<RC>::and_then(RL(&B1), Identity::new()), op, &a, N_KINDS)
 });
@@ -210,16 +208,16 @@ layer_harness!(c09_box_dyn_of_box_dyn, 2, |op, a| {
 });
 layer_harness!(c09_vec1_of_box_dyn, 3, |op, a| {
     vec_excluded(op);
-    layer_wrapper_x(vec![boxed(RL(&B1))], op, &a, N_KINDS, X_EVENT_ENABLED | X_ID_CHANGE)
+    layer_wrapper_x(vec![boxed(RL(&B1))], op, &a, N_KINDS, X_NONE)
 });
 layer_harness!(c09_some_of_vec1, 3, |op, a| {
     vec_excluded(op);
-    layer_wrapper_x(Some(vec![RL(&B1)]), op, &a, N_KINDS, X_EVENT_ENABLED | X_ID_CHANGE)
+    layer_wrapper_x(Some(vec![RL(&B1)]), op, &a, N_KINDS, X_NONE)
 });
-layer_harness!(c09_reload_of_some, 2, |op, a| { layer_wrapper(reloadable(Some(RL(&B1))), op, &a, K_ON_SUBSCRIBE) });
+layer_harness!(c09_reload_of_some, 2, |op, a| { layer_wrapper(reloadable(Some(RL(&B1))), op, &a, N_KINDS) });
 layer_harness!(c09_box_dyn_of_reload, 2, |op, a| {
     let w: DynSub = Box::new(reloadable(RL(&B1)));
-    layer_wrapper(w, op, &a, K_ON_SUBSCRIBE)
+    layer_wrapper(w, op, &a, N_KINDS)
 });
 layer_harness!(c09_some_of_identity_stack, 2, |op, a| {
     layer_wrapper(Some(Subscribe::<RC>::and_then(Identity::new(), RL(&B1))), op, &a, N_KINDS)
@@ -545,8 +543,6 @@ stack_harness!(c09_stack3_list_on_tree, 5, |op, a| {
 // wrapped elements inside a stack
 stack_harness!(c09_stack3_wrapped, 5, |op, a| {
     let s = then(then(Some(l1()), boxed(l2())), reloadable(l3())).with_collector(root());
-    // reload::Subscriber does not forward on_subscribe (finding reload_on_subscribe): give A3 the missing count
-    A3.hit(K_ON_SUBSCRIBE, 0, 0);
     stack_oracle(&s, &[&A3, &A2, &A1], op, &a)
 });
 /// dispatcher registration reaches every layer of a tree exactly once (through `Subscribe for Layered`)
@@ -558,6 +554,192 @@ stack_harness!(c09_stack3_tree_register_dispatch, 4, |_op, _a| {
     assert!(A1.total() == 1 && A2.total() == 1 && A3.total() == 1);
     kani::cover!(A3.seq() != A1.seq());
 });
+
+
+// ------------------------------------------------------------------------------------------------------------
+// (c') Vec of 2..3 recording elements on the recording root: EVERY element receives every notification exactly once,
+//      in element order, whatever the elements answer (only `enabled` / `event_enabled` stop at the first veto and
+//      `max_level_hint` stops at the first element without a hint).
+
+/// each element exactly once (plus its on_subscribe), in element order, all after sequence stamp `after`
+fn els_all_once(els: &[&'static Rec], k: usize, after: usize) -> bool {
+    let mut ok = true;
+    let mut prev = after;
+    let mut j = 0;
+    while j < els.len() {
+        ok = ok && els[j].count(k) == 1 && els[j].total() == 2 && els[j].seq() > prev;
+        prev = els[j].seq();
+        j += 1;
+    }
+    ok
+}
+/// callsite registration through `vec![..].with_collector(root)`; `r` = the stack's answer
+fn vec_register_asserts(els: &[&'static Rec], r0: u64) {
+    let n = els.len();
+    let root = &ROOT_A;
+    let r = (r0, 0u64);
+    // the subject of the seeded change: no element may be skipped, whatever the others answered
+    assert!(els_all_once(els, K_REGISTER, 0), "register_callsite must reach every element exactly once, in order");
+    let first = ld8(&els[0].ans_interest);
+    let mut same = true;
+    let mut j = 1;
+    while j < n { same = same && ld8(&els[j].ans_interest) == first; j += 1; }
+    let vec_interest = if same { first } else { 1 };
+    // Layered on top: never stops, sometimes wins, always defers to the root
+    assert!(root.count(K_REGISTER) == (vec_interest != 0) as usize);
+    let expected = if vec_interest == 2 { ld8(&root.ans_interest) } else { vec_interest };
+    assert!(r.0 == expected as u64, "combined interest");
+    kani::cover!(first == 1 && r.0 == 1);
+    kani::cover!(first == 2 && !same);
+    kani::cover!(same && first == 0);
+    kani::cover!(same && first == 2 && r.0 == 2);
+}
+/// `els`: the elements in Vec order; the root collector is ROOT_A; `stack` = vec.with_collector(root).
+fn vec_oracle<S: Collect>(stack: &S, els: &[&'static Rec], op: u8, a: &Args) {
+    kani::assume(op < N_OPS);
+    let n = els.len();
+    let root = &ROOT_A;
+    let mut i = 0;
+    while i < n {
+        assert!(els[i].count(K_ON_SUBSCRIBE) == 1 && els[i].total() == 1, "on_subscribe once per element");
+        if i > 0 { assert!(els[i].seq() > els[i - 1].seq(), "on_subscribe in element order"); }
+        i += 1;
+    }
+    let r = drive(stack, op, a);
+    // each element exactly once (plus its on_subscribe), in element order, all after `after`
+    let all_once = |k: usize, after: usize| {
+        let mut ok = true;
+        let mut prev = after;
+        let mut j = 0;
+        while j < n {
+            ok = ok && els[j].count(k) == 1 && els[j].total() == 2 && els[j].seq() > prev;
+            prev = els[j].seq();
+            j += 1;
+        }
+        ok
+    };
+    let none_called = |k: usize| {
+        let mut ok = true;
+        let mut j = 0;
+        while j < n { ok = ok && els[j].count(k) == 0 && els[j].total() == 1; j += 1; }
+        ok
+    };
+    // asked in element order up to and including the first `false`; -> (protocol ok, conjunction)
+    let veto_prefix = |k: usize, ans: &dyn Fn(&Rec) -> bool| {
+        let mut ok = true;
+        let mut alive = true;
+        let mut j = 0;
+        while j < n {
+            ok = ok && els[j].count(k) == (alive as usize);
+            alive = alive && ans(els[j]);
+            j += 1;
+        }
+        (ok, alive)
+    };
+    match op {
+        OP_REGISTER => vec_register_asserts(els, r.0),
+        OP_ENABLED => {
+            let (ok, all) = veto_prefix(K_ENABLED, &|x: &Rec| ld8(&x.ans_enabled) != 0);
+            assert!(ok, "enabled: elements asked in order up to the first veto");
+            assert!(root.count(K_ENABLED) == all as usize);
+            assert!((r.0 == 1) == (all && ld8(&root.ans_enabled) != 0));
+            kani::cover!(all);
+            kani::cover!(!all && els[n - 1].count(K_ENABLED) == 1);
+        }
+        OP_EVENT_ENABLED => {
+            let (ok, all) = veto_prefix(K_EVENT_ENABLED, &|x: &Rec| ld8(&x.ans_event_enabled) != 0);
+            assert!(ok, "event_enabled: elements asked in order up to the first veto");
+            assert!(root.count(K_EVENT_ENABLED) == all as usize);
+            assert!((r.0 == 1) == (all && ld8(&root.ans_event_enabled) != 0));
+            kani::cover!(!all && els[n - 1].count(K_EVENT_ENABLED) == 0);
+        }
+        OP_HINT => {
+            let (ok, _all) = veto_prefix(K_HINT, &|x: &Rec| ld8(&x.ans_hint) < 6);
+            assert!(ok, "max_level_hint: elements consulted in order up to the first one without a hint");
+            assert!(root.count(K_HINT) == 1);
+        }
+        OP_NEW_SPAN => {
+            assert!(root.count(K_NEW_SPAN) == 1 && all_once(K_NEW_SPAN, root.seq()));
+            let mut j = 0;
+            while j < n { assert!(ld64(&els[j].arg_a) == r.0); j += 1; }
+        }
+        OP_RECORD => assert!(root.count(K_RECORD) == 1 && all_once(K_RECORD, root.seq())),
+        OP_FOLLOWS => assert!(root.count(K_FOLLOWS) == 1 && all_once(K_FOLLOWS, root.seq())),
+        OP_EVENT => assert!(root.count(K_EVENT) == 1 && all_once(K_EVENT, root.seq())),
+        OP_ENTER => assert!(root.count(K_ENTER) == 1 && all_once(K_ENTER, root.seq())),
+        OP_EXIT => assert!(root.count(K_EXIT) == 1 && all_once(K_EXIT, root.seq())),
+        OP_CLONE => {
+            assert!(root.count(K_CLONE) == 1);
+            if r.0 != a.id1 {
+                assert!(all_once(K_ID_CHANGE, root.seq()));
+                let mut j = 0;
+                while j < n { assert!(ld64(&els[j].arg_a) == a.id1 && ld64(&els[j].arg_b) == r.0); j += 1; }
+            } else {
+                assert!(none_called(K_ID_CHANGE));
+            }
+            kani::cover!(r.0 != a.id1);
+        }
+        OP_TRY_CLOSE => {
+            assert!(root.count(K_CLOSE) == 1);
+            if r.0 == 1 { assert!(all_once(K_CLOSE, root.seq())); } else { assert!(none_called(K_CLOSE)); }
+            kani::cover!(r.0 == 1);
+        }
+        _ => {
+            assert!(root.count(K_CURRENT) == 1 && none_called(K_CURRENT));
+        }
+    }
+    assert!(root.total() <= 1);
+}
+/// dispatcher registration reaches every element once, in order
+fn vec_reg_dispatch(v: &Vec<RL>, els: &[&'static Rec]) {
+    let d = Dispatch::none();
+    Subscribe::<RC>::on_register_dispatch(v, &d);
+    let mut j = 0;
+    while j < els.len() {
+        assert!(els[j].count(K_REG_DISPATCH) == 1 && els[j].total() == 1);
+        if j > 0 { assert!(els[j].seq() > els[j - 1].seq()); }
+        j += 1;
+    }
+}
+stack_harness!(c09_vec2_elements, 4, |op, a| {
+    stack_oracle_guard();
+    vec_oracle(&vec![l1(), l2()].with_collector(root()), &[&A1, &A2], op, &a)
+});
+stack_harness!(c09_vec3_elements, 5, |op, a| {
+    stack_oracle_guard();
+    vec_oracle(&vec![l1(), l2(), l3()].with_collector(root()), &[&A1, &A2, &A3], op, &a)
+});
+/// the same query restricted to callsite registration (cheap; the method a seeded early-exit change broke)
+stack_harness!(c09_vec3_register_callsite, 5, |_op, a| {
+    stack_oracle_guard();
+    let r = drive(&vec![l1(), l2(), l3()].with_collector(root()), OP_REGISTER, &a);
+    vec_register_asserts(&[&A1, &A2, &A3], r.0)
+});
+stack_harness!(c09_vec2_register_callsite, 4, |_op, a| {
+    stack_oracle_guard();
+    let r = drive(&vec![l1(), l2()].with_collector(root()), OP_REGISTER, &a);
+    vec_register_asserts(&[&A1, &A2], r.0)
+});
+/// a 3-element Vec inside a tree under another layer: still every element, once, in order
+stack_harness!(c09_vec3_under_layer_register_callsite, 5, |_op, a| {
+    B1.any_answers();
+    let s = then(vec![l1(), l2(), l3()], RL(&B1)).with_collector(root());
+    let r = drive(&s, OP_REGISTER, &a);
+    // the outer layer first; unless it vetoes, all Vec elements are told exactly once, in order
+    assert!(B1.count(K_REGISTER) == 1);
+    if ld8(&B1.ans_interest) != 0 {
+        assert!(els_all_once(&[&A1, &A2, &A3], K_REGISTER, B1.seq()), "every Vec element told once, in order");
+    } else {
+        assert!(A1.count(K_REGISTER) == 0 && A2.count(K_REGISTER) == 0 && A3.count(K_REGISTER) == 0 && r.0 == 0);
+    }
+    kani::cover!(ld8(&B1.ans_interest) == 2 && ld8(&A1.ans_interest) == 1 && ld8(&A3.ans_interest) == 0);
+    kani::cover!(ld8(&B1.ans_interest) == 0);
+});
+stack_harness!(c09_vec3_register_dispatch, 5, |_op, _a| {
+    vec_reg_dispatch(&vec![l1(), l2(), l3()], &[&A1, &A2, &A3]);
+    kani::cover!(A3.seq() > A1.seq());
+});
+fn stack_oracle_guard() {}
 
 // ------------------------------------------------------------------------------------------------------------
 // (d) Filter wrappers: bare = FilterProbe(RF(A1)), wrapped = FilterProbe(W(RF(B1))), both on a root collector
@@ -598,11 +780,8 @@ layer_harness!(c09_filter_arc_dyn, 2, |op, a| {
     let w: ArcFilter = Arc::new(RF(&B1));
     filter_wrapper(w, op, &a)
 });
-// reload::Subscriber<F> as a Filter does not forward `event_enabled` (finding)
-layer_harness!(c09_filter_reload, 2, |op, a| {
-    kani::assume(op != OP_EVENT_ENABLED);
-    filter_wrapper_x(reloadable(RF(&B1)), op, &a, X_EVENT_ENABLED)
-});
+// reload::Subscriber<F> as a Filter forwards `event_enabled` since 14a6af5 (finding harness stays below)
+layer_harness!(c09_filter_reload, 2, |op, a| { filter_wrapper(reloadable(RF(&B1)), op, &a) });
 layer_harness!(c09_filter_reload_event_enabled, 2, |_op, a| { let _ = filter_core(reloadable(RF(&B1)), OP_EVENT_ENABLED, &a); });
 layer_harness!(c09_filter_some_of_box_dyn, 2, |op, a| {
     let w: BoxFilter = Box::new(RF(&B1));
